@@ -151,7 +151,19 @@ func (s Server) Serve(c context.Context, conn network.Conn) (err error) {
 		// otherwise). RequestContext.SetTraceInfo lets a handler replace it; the replacement, and what was
 		// recorded into it, must not reach the request that is served next with this context.
 		pooledTraceInfo = ctx.GetTraceInfo()
+		// The level of that trace info is engine configuration (WithTraceLevel). HTTPStats.SetLevel lets a
+		// handler change it for its request; Reset keeps the level, so it is put back with the trace info.
+		pooledTraceLevel stats.Level
 	)
+	if pooledTraceInfo != nil {
+		pooledTraceLevel = pooledTraceInfo.Stats().Level()
+	}
+	restoreTraceInfo := func() {
+		if pooledTraceInfo != nil {
+			pooledTraceInfo.Stats().SetLevel(pooledTraceLevel)
+		}
+		ctx.SetTraceInfo(pooledTraceInfo)
+	}
 
 	// for sensing connection close
 	// only if `conn` is internalNetwork.StatefulConn
@@ -191,7 +203,7 @@ func (s Server) Serve(c context.Context, conn network.Conn) (err error) {
 			return
 		}
 
-		ctx.SetTraceInfo(pooledTraceInfo)
+		restoreTraceInfo()
 		s.putRequestContext(ctx)
 	}()
 
@@ -493,7 +505,7 @@ func (s Server) Serve(c context.Context, conn network.Conn) (err error) {
 			traceStarted = false
 		}
 
-		ctx.SetTraceInfo(pooledTraceInfo)
+		restoreTraceInfo()
 		ctx.ResetWithoutConn()
 	}
 }
